@@ -122,11 +122,11 @@ def replay_script(prop, path):
 
 
 def model_cfg(path, enable, runs, maxtrig, maxget, fixed, props=True):
-    t = "CONSTANTS Enable = %s Runs = %d MaxTrig = %d MaxGet = %d ResetAtStart = %s MaxFid = %d\n" % (
-        "TRUE" if enable else "FALSE", runs, maxtrig, maxget, "TRUE" if fixed else "FALSE", 6)
-    t += "SPECIFICATION Spec\nINVARIANT NoBad\nCONSTRAINT Bounded\nCHECK_DEADLOCK FALSE\n"
+    t = "CONSTANTS Enable = %s Runs = %d MaxTrig = %d MaxGet = %d ResetAtStart = %s MaxFid = %d NSets = %d\n" % (
+        "TRUE" if enable else "FALSE", runs, maxtrig, maxget, "TRUE" if fixed else "FALSE", 6, 1 if enable else 0)
+    t += "SPECIFICATION Spec\nINVARIANTS NoBad NoSetWhileRendering\nCONSTRAINT Bounded\nCHECK_DEADLOCK FALSE\n"
     if props:
-        t += "PROPERTIES StopReturns CallReleased\n"
+        t += "PROPERTIES StopReturns CallReleased SetReturns\n"
     return write_cfg(path, t)
 
 
